@@ -383,6 +383,11 @@ def run(eng: Engine, ck: Check):
                   into_slot, f'started by `{unparse(st)[:70]}` ({how})', construct=f'{caller.qualname} starts {f.name}')
     from . import defs as _defs_c
     _defs_c.cancellation_propagates(eng, ck, 'R-C06-CANCEL-ALL', 'abort / pause / remove end the attempts of a transfer by cancelling them')
+    _defs_c.lock_wrapper_forwards_arguments(eng, ck, 'R-C06-LATCH', 'an abort that waited for the lock still records why: the REQUESTED reason is what keeps the transfer from being queued again')
+    # a transfer aborted ON REQUEST stays aborted through every later re-evaluation of the uploads: the REQUESTED reason is tested first and
+    # wins (a latch); the only automatic re-queue is of an ABORTED upload whose reason vanished (rules of the re-evaluation, shared with C08)
+    from .c08 import reeval_rules
+    reeval_rules(eng, ck, 'R-C06-LATCH', {'reason order', 'condition _is_abort_requested', 'should_change', 'aborted definition', 'requeue', 'abort with reason'})
     # the negotiation task of a transfer awaits Network.create_peer_connection; in race mode that starts two attempt tasks of its own:
     # cancelling the negotiation must end them too
     from .c11 import race_attempts_rule
